@@ -81,6 +81,7 @@ class Kernel:
         ns.update(__arg__=self._arg, __decl__=self._decl, __cast__=self._cast, __coerce__=self._coerce,
                   __carray__=self._carray, __addr__=self._addr, __range__=rt.crange,
                   bytearray=KBytes, chr=_chr, repr=_repr, len=_len, min=_min, max=_max, abs=builtins.abs,
+                  reversed=_reversed,
                   np=SymNP, cython=None, __name__="biotite." + (package or os.path.dirname(rel_path).replace("/", ".")),
                   __package__="biotite." + (package or os.path.dirname(rel_path).replace("/", ".")))
         for k, v in self.mod.constants.items():
@@ -190,6 +191,10 @@ class Kernel:
 
 
 # ---------------------------------------------------------------------- builtins over symbols
+def _reversed(x):
+    return builtins.reversed(x) if hasattr(x, "__reversed__") or hasattr(x, "__len__") else iter(list(x)[::-1])
+
+
 def _chr(x):
     if isinstance(x, CInt):
         if x.concrete:
@@ -411,8 +416,12 @@ class _SymNP:
             raise Escape("np.delete with symbolic index")
         return SymArray([r for k, r in enumerate(a.data) if k != i], a.t)
 
-    def max(self, a):
+    def max(self, a, axis=None):
         xs = a.data if isinstance(a, (View, SymArray)) else list(a)
+        if axis is not None:
+            if axis not in (-1, 1) or not xs or not isinstance(xs[0], list):
+                raise Escape("np.max over this axis")
+            return SymArray([_max(*row) for row in xs], a.t)
         return _max(*xs)
 
     def min(self, a):
